@@ -761,6 +761,7 @@ class _Walker(object):
         self.cov_cache = {}
         self.cd_cache = {}
         self.lookup_refs = []
+        self.devices = set()  # decoded hinting Device tables (StartSize, EndSize, DeltaFormat, deltas)
         self.extents = {}     # start -> (end, kind) of Device / Anchor / Coverage / ClassDef / CaretValue objects
 
     # -- primitives
@@ -907,6 +908,13 @@ class _Walker(object):
                 words = (e - s + 1 + per - 1) // per
                 self.need(pos + 6, 2 * words, "device deltas")
                 self.extent(pos, 6 + 2 * words, "Device")
+                bits = 16 // per
+                deltas = []
+                for k in range(e - s + 1):
+                    w_ = self.u16(pos + 6 + 2 * (k // per))
+                    v_ = (w_ >> (16 - bits * (k % per + 1))) & ((1 << bits) - 1)
+                    deltas.append(v_ - (1 << bits) if v_ >> (bits - 1) else v_)
+                self.devices.add((s, e, f, tuple(deltas)))
                 self.stats["Device.format%d" % f] += 1
             elif f != 0x8000:
                 self.bad("device deltaFormat %#x" % f)
@@ -986,6 +994,8 @@ class _Walker(object):
                     self.path = path
                     self.bad("lookup index %d >= LookupCount %d" % (li, self.nlookups))
         self.check_extents()
+        if self.devices:
+            self.stats["_devices"] = sorted(self.devices)
         self.stats["lookups"] = self.nlookups
         self.stats["bytes"] = self.n
         self.stats["max_reached"] = self.max_end
@@ -1056,6 +1066,8 @@ class _Walker(object):
                     self.need(vs, 8, "ItemVariationStore")
                     self.stats["VarStore"] += 1
         self.check_extents()
+        if self.devices:
+            self.stats["_devices"] = sorted(self.devices)
         self.stats["bytes"] = self.n
         return self.stats
 
